@@ -54,6 +54,39 @@ func tableOf(p *pack.StatGeneralPack) (keys []string, cols []col, err string) {
 	return
 }
 
+// heldLists: the list objects currently in the pack's table, as the caller would hold them.
+func heldLists(p *pack.StatGeneralPack) []tl {
+	var out []tl
+	en := p.GetDataTable().Entries()
+	for en.HasMoreElements() {
+		ent := en.NextElement().(*hmap.StringKeyLinkedEntry)
+		w, _ := wrapAny(ent.GetValue().(list.AnyList))
+		out = append(out, w)
+	}
+	return out
+}
+
+func renderLists(ls []tl) string {
+	var sb strings.Builder
+	for _, l := range ls {
+		for _, v := range l.toArr() {
+			sb.WriteString(fmt.Sprintf("%d/%d/%q,", v.i, v.u, v.s))
+		}
+		sb.WriteByte('|')
+	}
+	return sb.String()
+}
+
+func scribble(t byte) val {
+	switch t {
+	case 'i', 'l':
+		return val{i: -424242}
+	case 'f', 'd':
+		return val{u: 0x40490fd0}
+	}
+	return val{s: "scribble"}
+}
+
 func colsStr(keys []string, cols []col) string {
 	var parts []string
 	for i, c := range cols {
@@ -112,6 +145,9 @@ func runPack(c *kase) {
 		if spec == "-" {
 			return
 		}
+		// lists the caller took from the table before sorting must not be reachable from the sorted table
+		held := heldLists(p2)
+		heldBefore := renderLists(held)
 		sp := strings.Split(spec, ",")
 		k, _ := strconv.Atoi(sp[0])
 		asc := parseBool(sp[1])
@@ -139,6 +175,28 @@ func runPack(c *kase) {
 				return
 			}
 		}
+		// no shared storage between the lists held from before and the sorted table's lists
+		fresh := heldLists(p2)
+		for i, l := range fresh {
+			if l.size() > 0 {
+				l.set(0, scribble(cols[i].t))
+			}
+		}
+		if renderLists(held) != heldBefore {
+			res = "alias: writing into the sorted table's lists changed the lists taken from the table before the sort"
+			return
+		}
+		freshAfter := renderLists(fresh)
+		for i, l := range held {
+			if l.size() > 0 {
+				l.set(l.size()-1, scribble(cols[i].t))
+			}
+		}
+		if renderLists(fresh) != freshAfter {
+			res = "alias: writing into lists taken before the sort changed the sorted table"
+			return
+		}
+		// (c3 was rendered before the scribbling)
 		// rows stay rows
 		r0, r1 := rowsOf(cols), rowsOf(c3)
 		s0, s1 := append([]string{}, r0...), append([]string{}, r1...)
@@ -191,6 +249,8 @@ func judgePack(c *kase, rep *vh.Report) {
 	case res == "sort: D43":
 		rep.Fail("property", "SortingAnyList:int-child-compared-as-float64",
 			"StatGeneralPack.SortAnyList: ties on the sort column are not ordered by an integer child column beyond 2^53", replayOf(c, nil))
+	case strings.HasPrefix(res, "alias"):
+		rep.Fail("property", "StatGeneralPack.Sort:shared-storage", res, replayOf(c, nil))
 	case strings.HasPrefix(res, "round-trip"):
 		rep.Fail("property", "StatGeneralPack.table:round-trip", res, replayOf(c, nil))
 	case strings.HasPrefix(res, "sort"):
